@@ -31,7 +31,7 @@ Proof. exact clean_once. Qed.
 Print Assumptions c03_clean_once.
 
 (* the asynchronous handlers never talk to the client: only the worker goroutine does *)
-Theorem c03_handlers_silent : forall c e s, filter is_down_out (snd (env_step c e s)) = [].
+Theorem c03_handlers_silent : forall src c e s, filter is_down_out (snd (env_step src c e s)) = [].
 Proof. exact env_no_down. Qed.
 Print Assumptions c03_handlers_silent.
 
@@ -49,13 +49,15 @@ Print Assumptions c03_at_most_one_reply_family.
 Definition c03_exactly_one_outcome_statement (src : srcp) : Prop :=
   forall c sched, quiescent (final src c sched) = true -> outcome c sched (final src c sched) (summ src c sched).
 
-(* the code in the tree refutes it in three ways (listed findings; each is replayed on the real proxy by the harness) *)
+(* the code in the tree refutes it in two ways (listed findings; each is replayed on the real proxy by the harness) *)
 Theorem c03_outcome_refuted_loop_exhausted : ~ c03_exactly_one_outcome_statement proxy_src.
 Proof. exact refuted_loop. Qed.
 Print Assumptions c03_outcome_refuted_loop_exhausted.
 Theorem c03_outcome_refuted_retry_without_global_timer : ~ c03_exactly_one_outcome_statement proxy_src.
 Proof. exact refuted_nog. Qed.
-Theorem c03_outcome_refuted_upfilter_reset : ~ c03_exactly_one_outcome_statement proxy_src.
+(* a third way, repaired by 0c05b6e5a (kept on the switch set back): TerminateStream, then an upstream reset seen by the
+   processError of phase UpFilter *)
+Theorem c03_outcome_refuted_upfilter_reset : ~ c03_exactly_one_outcome_statement src_no_direct_reset.
 Proof. exact refuted_upf. Qed.
 
 (* strongest true restriction: the three patterns above (flagged in the state: the outer loop ran out / a retry started with no
@@ -81,7 +83,7 @@ Theorem c03_timeout_reply_family : forall c, In c family -> forall sched, Forall
   let s := final proxy_src c sched in
   parked s = true -> global_armed s = true -> received s = false -> down_reset s = false -> up_reset s = false ->
   direct s = false -> has_upreq s = true -> c_send c = [] ->
-  let '(s1, o1) := env_step c EvGlobal s in
+  let '(s1, o1) := env_step proxy_src c EvGlobal s in
   let '(s2, g2) := run_worker_n proxy_src c 40 (s1, gs_outs (summ proxy_src c sched) o1) in
   wdone s2 = true /\ cleaned s2 = true /\ g_ended g2 = true /\ g_reply_kind g2 = Some (KHijack, 504).
 Proof. exact ProxyThm.c03_timeout_reply_family. Qed.
